@@ -81,7 +81,8 @@ pub fn inline_atom(rng: &mut Rng, depth: usize) -> String {
         15 => format!("[{}][{}]", inner(rng), rng.pick(&["ref", "REF", "Foo", "r  2", "missing"])),
         16 => format!("[{}]", rng.pick(&["ref", "REF", "Foo", "r 2", "missing"])),
         17 => (*rng.pick(&["<http://example.com>", "<mailto:a@b.c>", "<a@b.co>", "<javascript:x>", "<x:y z>", "<https://é.com/ü>"])).to_string(),
-        18 => (*rng.pick(&["&amp;", "&#35;", "&#x41;", "&copy;", "&#0;", "&nosuch;", "&#xD800;", "&#99999999;", "&AMP;", "&lt;", "&quot;", "&"])).to_string(),
+        18 => (*rng.pick(&["&amp;", "&#35;", "&#x41;", "&copy;", "&#0;", "&nosuch;", "&#xD800;", "&#99999999;", "&AMP;", "&lt;", "&quot;", "&",
+                           "&#xD7FF;", "&#xDFFF;", "&#57343;", "&#xE000;", "&#xFDD0;", "&#xFDEF;", "&#xFFFE;", "&#xFFFF;", "&#x10FFFF;", "&#x110000;", "&#X1F600;", "&#1114111;", "&#8;", "&#x7F;", "&#x9F;", "&nvlt;", "&CounterClockwiseContourIntegral;"])).to_string(),
         19 => format!("\\{}", rng.pick(SIG)),
         20 => "  \n".into(),
         21 => "\\\n".into(),
